@@ -227,8 +227,8 @@ def configs(tier, seed):
                     continue
                 if not full and mi >= 3 and (x0 == "sym" or g == "l1"):
                     continue        # 8-30 min each (thorough); the inductive pdhg_state harness covers every history cheaply
-                if mi >= 4 and g == "l1":
-                    continue        # > 1 h: four nested threshold / residual forks
+                if mi >= 4 or (mi >= 3 and g == "l1" and u0 == "sym"):
+                    continue        # > 30 min or `unknown`: nested threshold / residual forks (the inductive pdhg_state harness covers every history)
                 add("pdhg", "a1:g=%s:x0=%s:u0=%s:max_iter=%d" % (g, x0, u0, mi), A=[[2]], g=g, x0=x0, u0=u0, max_iter=mi, cost=30)
         if full and mi in (1, 2):
             add("pdhg", "a21:g=l1:x0=zero:u0=zero:max_iter=%d" % mi, A=[[1], [2]], g="l1", x0="zero", u0="zero", max_iter=mi, cost=80)
